@@ -724,7 +724,7 @@ func classes(g *docgen) []string {
 }
 
 func TestProp_Document(t *testing.T) {
-	ev.Describe("document", "documents of 1-8 constructs: text (no '<'+letter), comments (-->, --!>, bogus <!x> <?x> </ x>), doctype in any case, CDATA, start tags with unquoted/'/\"/valueless attributes (whitespace variants around =, values containing > /> the other quote, unquoted values with / = quotes), void and end tags, raw-text elements script/style/title/textarea/xmp/iframe with look-alike end tags (</scriptx, </ script>, < /script>, </scrip>) and the script <!-- <script> </script> --> double escape, plaintext (rest of document), svg/math subtrees with \"-quoted </svg> look-alikes; tag and attribute names in random ASCII case, whitespace variations; oracle: exactly one token per construct with the right type, token bytes (names lower-cased), Text()/AttrKey() lower-cased, AttrVal() verbatim, HasTemplate()==false; non-trivial = >= 3 constructs incl. a tag with attributes or a raw-text/foreign element")
+	ev.Describe("document", "documents of 1-8 constructs: text (no '<'+letter), comments (-->, --!>, bogus <!x> <?x> </ x>), doctype in any case, CDATA, start tags with unquoted/'/\"/valueless attributes (whitespace variants around =, values containing > /> the other quote, unquoted values with / = quotes), void and end tags, raw-text elements script/style/title/textarea/xmp/iframe with look-alike end tags (</scriptx, </ script>, < /script>, </scrip>) and the script <!-- <script> </script> --> double escape, plaintext (rest of document), end-tag look-alikes whose name goes on (</script-x>, </textarea0>), script escapes left open; svg/math subtrees generated recursively (quotes in text content, attribute values in either quote kind or unquoted incl. a trailing slash, comments and CDATA sections holding look-alike end tags and quotes, the other foreign kind, nested and self-closing elements of the same kind, a self-closing root); tag and attribute names in random ASCII case, whitespace variations; oracle: exactly one token per construct with the right type, token bytes (names lower-cased), Text()/AttrKey() lower-cased, AttrVal() verbatim, HasTemplate()==false; non-trivial = >= 3 constructs incl. a tag with attributes or a raw-text/foreign element")
 	ev.Check(t, 15000, func(t *rapid.T) {
 		g := genDoc(t, [2]string{})
 		src := g.upcase()
@@ -747,7 +747,7 @@ func hasRaw(g *docgen) bool {
 var dialects = map[string][2]string{"GoTemplate": html.GoTemplate, "HandlebarsTemplate": html.HandlebarsTemplate, "MustacheTemplate": html.MustacheTemplate, "EJSTemplate": html.EJSTemplate, "ASPTemplate": html.ASPTemplate, "PHPTemplate": html.PHPTemplate}
 
 func TestProp_Templates(t *testing.T) {
-	ev.Describe("templates", "the same construct grammar with template regions of the configured dialect (all six dialect variables: {{ }}, <% %>, <? ?>) inserted as stand-alone nodes, between text, inside attribute names, as whole unquoted values, anywhere in quoted values and inside raw text; region contents contain the end delimiter only inside '...'/\"...\" strings with backslash escapes; oracle: exact token list, no region is split across tokens (each generated region lies inside one token) and HasTemplate() is true exactly for the tokens that contain a region; non-trivial = >= 1 region inside an attribute or raw text")
+	ev.Describe("templates", "the same construct grammar with template regions of the configured dialect (all six dialect variables: {{ }}, <% %>, <? ?>) inserted as stand-alone nodes, between text, inside attribute names, in front of / inside / behind unquoted values, anywhere in quoted values, inside raw text and script escapes, inside comments, bogus comments, CDATA, doctype, behind end tag names and anywhere in svg/math content; region contents contain the end delimiter only inside '...'/\"...\" strings with backslash escapes (also runs of escaped backslashes in front of the closing quote) and any look-alike closer of the surrounding construct (-->, ]]>, />, </svg>, </textarea>); oracle: exact token list, no region is split across tokens (each generated region lies inside one token) and HasTemplate() is true exactly for the tokens that contain a region; non-trivial = >= 1 region inside an attribute or raw text")
 	ev.Check(t, 15000, func(t *rapid.T) {
 		name := rapid.SampledFrom([]string{"GoTemplate", "HandlebarsTemplate", "MustacheTemplate", "EJSTemplate", "ASPTemplate", "PHPTemplate"}).Draw(t, "dialect")
 		d := dialects[name]
